@@ -469,6 +469,45 @@ pub fn ring_lc_ops(s: &mut Src) -> R {
     Ok(())
 }
 
+// ------------------------------------------------------------------ PolyBase (Laurent polynomials over Z)
+// (witness search / replay for the Verus unit `polybase`)
+pub fn ring_polybase_ops(s: &mut Src) -> R {
+    use yui::poly::LPoly;
+    type P = LPoly<'x', i64>;
+    const W: i64 = 2;           // exponents in -W..=W
+    let mut ta = vec![]; let mut tb = vec![];
+    for _ in 0..4 { ta.push((s.small(-W, W), s.small(-2, 2))); }
+    for _ in 0..4 { tb.push((s.small(-W, W), s.small(-2, 2))); }
+    let (na, nb) = (s.small(0, 4) as usize, s.small(0, 4) as usize);
+    reach!();
+    const D: usize = (4 * W + 1) as usize;          // dense index = exponent + 2W
+    let dense = |t: &[(i64, i64)]| { let mut d = [0i64; D]; for &(e, c) in t { d[(e + 2 * W) as usize] += c; } d };
+    let mk = |t: &[(i64, i64)]| P::from_iter(t.iter().map(|&(e, c)| (P::mono(e as isize), c)));
+    let same = |p: &P, d: &[i64; D]| (0..D).all(|i| *p.coeff(&P::mono(i as isize - 2 * W as isize)) == d[i]) && p.nterms() == d.iter().filter(|c| **c != 0).count()
+        && p.iter().all(|(_, c)| *c != 0) && p.is_zero() == d.iter().all(|c| *c == 0);
+    let (a, b) = (mk(&ta[..na]), mk(&tb[..nb]));
+    let (da, db) = (dense(&ta[..na]), dense(&tb[..nb]));
+    ob!(same(&a, &da) && same(&b, &db), "PolyBase::from_iter::sums-terms-stores-no-zero");
+    let konst = |d: &[i64; D]| (0..D).all(|i| i == (2 * W) as usize || d[i] == 0);
+    ob!(a.is_const() == konst(&da), "PolyBase::is_const-iff-only-constant-term");
+    ob!(a.is_one() == (konst(&da) && da[(2 * W) as usize] == 1), "PolyBase::is_one-iff-constant-one");
+    ob!(*a.const_term() == da[(2 * W) as usize], "PolyBase::const_term");
+    let mut dsum = [0i64; D]; let mut ddif = [0i64; D]; let mut dmul = [0i64; D];
+    for i in 0..D { dsum[i] = da[i] + db[i]; ddif[i] = da[i] - db[i]; }
+    for i in 0..D { for j in 0..D { if da[i] != 0 && db[j] != 0 { dmul[i + j - (2 * W) as usize] += da[i] * db[j]; } } }
+    let mut c = a.clone(); c += &b;
+    ob!(same(&c, &dsum), "PolyBase::add_assign::coefficientwise-sum");
+    let mut c = a.clone(); c -= &b;
+    ob!(same(&c, &ddif), "PolyBase::sub_assign::coefficientwise-difference");
+    let mut c = a.clone(); c *= &b;
+    ob!(same(&c, &dmul), "PolyBase::mul_assign::ring-product-in-every-branch");
+    let k = s.small(-2, 2);
+    let mut c = a.clone(); c *= &k;
+    let mut dk = [0i64; D]; for i in 0..D { dk[i] = da[i] * k; }
+    ob!(same(&c, &dk), "PolyBase::mul_assign_scalar::coefficientwise-scaling");
+    Ok(())
+}
+
 crate::harness_table!(RING:
     ring_div_round_i32, ring_div_round_i64, ring_div_round_i128, ring_div_round_const_i64, ring_div_round_const_i32,
     ring_int_units_i32, ring_int_divides_i32, ring_int_units_i64, ring_int_divides_i64,
@@ -477,6 +516,6 @@ crate::harness_table!(RING:
     ring_ff2p_inv [unwind 8], ring_ff3_inv [unwind 8], ring_ff5_inv [unwind 8], ring_ff7_inv [unwind 10], ring_ff46337_inv [unwind 30],
     ring_f2,
     ring_qint_addsub_i32, ring_qint_mul_i32, ring_gauss_units_i32 , ring_eisen_units_i32 [unwind 8], ring_gauss_divrem_i32, ring_eisen_divrem_i32,
-    ring_gauss_gcd [unwind 6], ring_ff5_gcd [unwind 6], ring_ratio_ops [unwind 8], ring_poly_divrem [unwind 8], ring_hpoly_ops, ring_lc_ops,
+    ring_gauss_gcd [unwind 6], ring_ff5_gcd [unwind 6], ring_ratio_ops [unwind 8], ring_poly_divrem [unwind 8], ring_hpoly_ops, ring_lc_ops, ring_polybase_ops,
     ring_qint_addsub_i64, ring_qint_mul_i64, ring_gauss_units_i64, ring_eisen_units_i64 [unwind 8], ring_gauss_divrem_i64, ring_eisen_divrem_i64,
 );
